@@ -77,7 +77,7 @@ theorem C16_writer (p : Policy) (input : Bytes) (k : Nat) (perm : Bool) :
 
 /-- non-vacuity: a run with several writes, failing at the second -/
 example :
-    let p : Policy := { elsAndAttrs := [(b!"b", [])], setOfElementsAllowedWithoutAttrs := [b!"b"] }
+    let p : Policy := { initialized := true, elsAndAttrs := [(b!"b", [])], setOfElementsAllowedWithoutAttrs := [b!"b"] }
     let ws := (p.run {} (Html.tokenize b!"<b>x</b>")).1
     ws.length = 3 ∧ (feed (some 1) false 0 ws) = ([b!"<b>"], 2, true) := by decide
 
